@@ -515,8 +515,14 @@ where
   /// Asynchronously removes all entries from the cache.
   pub async fn clear(&self) {
     // 1. Asynchronously acquire all write locks.
-    let mut shard_guards =
-      future::join_all(self.shared.store.iter_shards().map(|s| s.map.write_async())).await;
+    // Take the locks one after the other in shard order, exactly as the sync `clear()` does.
+    // Acquiring them concurrently (join_all) could end up holding a later shard while waiting
+    // for an earlier one, which deadlocks against a sync `clear()` (or another async one) that
+    // holds the earlier shard and waits for the later one.
+    let mut shard_guards = Vec::with_capacity(self.shared.store.shards.len());
+    for shard in self.shared.store.iter_shards() {
+      shard_guards.push(shard.map.write_async().await);
+    }
 
     // 2. Iterate through each shard, notify the corresponding policy for each
     //    key being removed, and then clear the shard's map.
